@@ -98,6 +98,57 @@ while_case!(c17_while_null_at_once, [2, 0, 0, 0], 0);
 while_case!(c17_while_twice_then_null, [0, 3, 2, 0], 2);
 while_case!(c17_while_three_truthy_kinds_then_false, [3, 4, 5, 1], 3);
 
+// ---- C36: which loud comments reach the output (`Item::Comment` arm of
+// handle_item), extracted each run; the scope's format and the destination
+// are probes (listed substitutions). ----
+pub(crate) struct CommentProbe {
+    text: &'static str,
+    pushed: Cell<u8>,
+}
+impl CommentProbe {
+    fn text(&self) -> &'static str {
+        self.text
+    }
+    fn push(&self, _text: &'static str) {
+        self.pushed.set(self.pushed.get() + 1);
+    }
+}
+
+//@range file=rsass/src/output/transform.rs fn=handle_item after="Item::Comment(c) => {" until="\n        }\n        Item::None"
+//@  header: fn snippet_comment(compressed_arg: bool, c: &CommentProbe, dest: &CommentProbe) -> Result<(), ()>
+//@  subst: scope.get_format().is_compressed() => compressed_arg
+//@  subst: c.evaluate(scope)?.take_value() => c.text()
+//@  subst: dest.push_comment(text.into()) => dest.push(text)
+//@  tail: Ok(())
+//@end
+
+/// C36: in expanded style every loud comment reached by evaluation is
+/// emitted (once).
+#[kani::proof]
+#[kani::unwind(8)]
+fn c36_expanded_keeps_every_loud_comment() {
+    let bang: bool = kani::any();
+    let p = CommentProbe { text: if bang { "! keep " } else { " plain " }, pushed: Cell::new(0) };
+    assert!(snippet_comment(false, &p, &p).is_ok());
+    assert!(p.pushed.get() == 1, "expanded: the comment is emitted exactly once");
+}
+/// C36: in compressed style an ordinary loud comment is dropped.
+#[kani::proof]
+#[kani::unwind(8)]
+fn c36_compressed_drops_ordinary_comments() {
+    let p = CommentProbe { text: " plain ", pushed: Cell::new(0) };
+    assert!(snippet_comment(true, &p, &p).is_ok());
+    assert!(p.pushed.get() == 0, "compressed: an ordinary comment is not emitted");
+}
+/// C36: in compressed style comments starting with `/*!` are kept.
+#[kani::proof]
+#[kani::unwind(8)]
+fn c36_compressed_keeps_bang_comments() {
+    let p = CommentProbe { text: "! keep ", pushed: Cell::new(0) };
+    assert!(snippet_comment(true, &p, &p).is_ok());
+    assert!(p.pushed.get() == 1, "compressed: a comment starting with /*! is kept");
+}
+
 #[kani::proof]
 fn cover_transformfns() {
     let t: u8 = kani::any();
